@@ -80,6 +80,17 @@ theorem ot_select (b m0 m1 : R) :
   · intro h; rw [h]; ring
   · intro h; rw [h]; ring
 
+/-- T6' bit-by-integer product (`multiply_bits_by_public_integers`, mpc_arithmetic.rs): the integer
+    owner S forms `m0 = u·c − r_s − r_h` and `m1 = (1−u)·c − r_s − r_h` with `u = b_s ⊕ b_h`; the
+    receiver R obtains `m_{b_r}` by oblivious transfer; `(m_{b_r}, r_s, r_h)` is a sharing of `b·c`
+    where `b = b_s ⊕ b_h ⊕ b_r`. -/
+theorem mixed_multiply_shares (c rs rh : R) (bs bh br : Bool) :
+    let u : R := if xor bs bh then 1 else 0
+    let m0 := u * c - rs - rh
+    let m1 := (c - u * c) - rs - rh
+    (if br then m1 else m0) + rs + rh = (if xor (xor bs bh) br then c else 0) := by
+  cases bs <;> cases bh <;> cases br <;> simp <;> ring
+
 /-- non-vacuity: ℤ, concrete shares of 7 and of 5 reveal 35 after product + resharing -/
 example : ((3 * 1 + 3 * 6 + 9 * 1 + (11 - 4)) + (9 * 6 + 9 * (-2) + (-5) * 6 + (4 - 20)) + ((-5) * (-2) + (-5) * 1 + 3 * (-2) + (20 - 11)) : Int) = 7 * 5 := by
   decide
